@@ -315,11 +315,47 @@ def run_mag(c):
     return ck.result()
 
 
+# ------------------------------------------------------------------------------------------- predicates with extra arguments
+def run_pred_coll(c):
+    """is_collinear / is_concurrent (4 arguments) and is_coplanar (5 arguments) on collections whose positions have different
+    truth values: the collection answer at every position == the answer of the same call on the single objects there"""
+    from . import c10
+
+    what, cols, truth = c10.mixed_columns(c)
+    conc = what == "concurrent2"
+    ccls, scls = (G.LineCollection, G.Line) if conc else (G.PointCollection, G.Point)
+    fn = {"collinear2": G.is_collinear, "concurrent2": G.is_concurrent, "coplanar3": G.is_coplanar}[what]
+    k = len(truth)
+    args = [ccls(np.array(col)) for col in cols]
+    two = c.get("bcast_first") and k == 4
+    if two:
+        args = [ccls(np.array(col).reshape((2, 2, -1))) for col in cols]
+    r, f = call(f"predicate:{what}:collection", fn, *args)
+    if f:
+        return [f]
+    ck = Checker()
+    r = np.asarray(r)
+    if not ck.check(r.shape == ((2, 2) if two else (k,)), f"predicate:{what}:result-shape", r.shape):
+        return ck.result()
+    r = r.ravel()
+    for i in range(k):
+        single, f = call(f"predicate:{what}:single", fn, *[scls(col[i]) for col in cols])
+        if f:
+            ck.add(f)
+            continue
+        if not ck.check(bool(single) == bool(r[i]), f"predicate:{what}:position-vs-single", (i, r.tolist(), truth, [p["mode"] for p in c["pos"]])):
+            break
+    return ck.result()
+
+
 LAWS = [
     Law("collection_vs_single", lambda tier: case(tier), run, nontrivial, labels, {"quick": 3500, "thorough": 80000},
         "collection result at every position == single-object result there, with broadcasting", shard=250, mandatory=("one-axis", "several-axes", "one-axis+broadcast")),
     Law("components_mixed_magnitude", lambda tier: mag_case(tier), run_mag, lambda c: len(set(c["exp"])) > 1, lambda c: ["mixed" if len(set(c["exp"])) > 1 else "uniform"],
         {"quick": 500, "thorough": 8000}, "QuadricCollection.components for line pairs whose matrices differ in magnitude by up to 1e4 vs the single-object results", shard=250),
+    Law("predicates_extra_arguments", lambda tier: __import__("vp.props.c10", fromlist=["x"]).mixed_case(tier), run_pred_coll, lambda c: len({p["mode"] for p in c["pos"]}) > 1,
+        lambda c: [c["what"]] + sorted({p["mode"] for p in c["pos"]}) + (["2-axes"] if c.get("bcast_first") and len(c["pos"]) == 4 else []), {"quick": 700, "thorough": 12000},
+        "is_collinear/is_concurrent (4 arguments), is_coplanar (5 arguments): collection positions with different truth values vs the single-object calls", shard=350),
     Law("indexing", lambda tier: idx_case(tier), run_idx, lambda c: True, lambda c: [f"{c['kind']}{c['d']}", c["how"], "2-axes" if len(c["shape"]) > 1 else "1-axis"],
         {"quick": 1500, "thorough": 25000}, "coll[i], coll[i,j], iteration yield instances of the element class with attributes intact", shard=300),
 ]
